@@ -1,10 +1,481 @@
-//! Component simulations (production cursor / frontier / TxDependency / WaitSlot / BeneficiaryHistory
-//! types driven through the in-crate drivers).
+//! Component simulations: the production cursor / frontier / TxDependency / WaitSlot types driven by
+//! the in-crate drivers (`grevm::verif::drivers::sched`) on simulator tasks. Same scheduler, strategies,
+//! trace recording, replay and minimisation as the pipeline checks.
 
+use crate::batch::{self, CaseRecord, EvidenceMeta};
+use crate::checks::{self, SchedMode, Tier};
+use crate::known;
+use crate::oracle::{CaseStats, Finding};
+use crate::prng::{Prng, derive};
 use crate::replayfile::ReplayFile;
+use crate::run::{self, Verdict};
+use crate::scenario::{Scenario, SchedSpec};
+use crate::simsched::Trace;
+use grevm::verif::drivers::sched::{self, CursorScenario, DepScenario, DriverReport, FrontierScenario, Outcome, ReplaceScenario, WaitScenario};
+use serde_json::{Value, json};
 use std::path::Path;
+use std::sync::Arc;
+use std::time::{Duration, Instant};
 
-pub fn replay(_file: &ReplayFile, _path: &Path) -> i32 {
-    println!("component replay not implemented yet");
-    2
+pub const COMPONENT_CHECKS: &[&str] = &["C15", "C16", "C17"];
+
+#[derive(Clone, Debug)]
+pub enum Component {
+    Cursor(CursorScenario),
+    Frontier(FrontierScenario),
+    Dependency(DepScenario),
+    Replace(ReplaceScenario),
+    Wait(WaitScenario),
+}
+
+impl Component {
+    pub fn group(&self) -> &'static str {
+        match self {
+            Component::Cursor(_) => "cursor-claim-rewind",
+            Component::Frontier(_) => "execution-frontier",
+            Component::Dependency(_) => "tx-dependency",
+            Component::Replace(_) => "tx-dependency-api-replace-blocker",
+            Component::Wait(_) => "wait-slot",
+        }
+    }
+
+    pub fn to_json(&self) -> Value {
+        match self {
+            Component::Cursor(c) => json!({"kind": "cursor", "n": c.n, "limit": c.limit, "claimers": c.claimers, "rewinders": c.rewinders}),
+            Component::Frontier(f) => json!({"kind": "frontier", "n": f.n, "publishers": f.publishers, "readers": f.readers, "reads_per_reader": f.reads_per_reader}),
+            Component::Dependency(d) => json!({"kind": "dependency", "n": d.n, "workers": d.workers,
+                "scripts": d.scripts.iter().map(|s| s.iter().map(|o| match o {
+                    Outcome::Success => json!("success"),
+                    Outcome::Error => json!("error"),
+                    Outcome::Conflict(x) => json!({"conflict": x}),
+                }).collect::<Vec<_>>()).collect::<Vec<_>>()}),
+            Component::Replace(r) => json!({"kind": "replace", "n": r.n, "tx": r.tx, "old_blocker": r.old_blocker, "new_blocker": r.new_blocker,
+                "claimers": r.claimers, "pop_next": r.pop_next, "race_second_add": r.race_second_add}),
+            Component::Wait(w) => json!({"kind": "wait", "notifiers": w.notifiers, "publishes_per_notifier": w.publishes_per_notifier,
+                "register_delay": w.register_delay, "targets": w.targets}),
+        }
+    }
+
+    pub fn from_json(v: &Value) -> Self {
+        let us = |x: &Value| x.as_u64().unwrap() as usize;
+        let list = |x: &Value| x.as_array().unwrap().iter().map(|y| y.as_u64().unwrap() as usize).collect::<Vec<_>>();
+        match v["kind"].as_str().unwrap() {
+            "cursor" => Component::Cursor(CursorScenario {
+                n: us(&v["n"]),
+                limit: us(&v["limit"]),
+                claimers: us(&v["claimers"]),
+                rewinders: v["rewinders"].as_array().unwrap().iter().map(list).collect(),
+            }),
+            "frontier" => Component::Frontier(FrontierScenario {
+                n: us(&v["n"]),
+                publishers: v["publishers"].as_array().unwrap().iter().map(list).collect(),
+                readers: us(&v["readers"]),
+                reads_per_reader: us(&v["reads_per_reader"]),
+            }),
+            "dependency" => Component::Dependency(DepScenario {
+                n: us(&v["n"]),
+                workers: us(&v["workers"]),
+                scripts: v["scripts"]
+                    .as_array()
+                    .unwrap()
+                    .iter()
+                    .map(|s| {
+                        s.as_array()
+                            .unwrap()
+                            .iter()
+                            .map(|o| match o.as_str() {
+                                Some("success") => Outcome::Success,
+                                Some("error") => Outcome::Error,
+                                _ => Outcome::Conflict(us(&o["conflict"])),
+                            })
+                            .collect()
+                    })
+                    .collect(),
+            }),
+            "replace" => Component::Replace(ReplaceScenario {
+                n: us(&v["n"]),
+                tx: us(&v["tx"]),
+                old_blocker: us(&v["old_blocker"]),
+                new_blocker: us(&v["new_blocker"]),
+                claimers: us(&v["claimers"]),
+                pop_next: v["pop_next"].as_bool().unwrap(),
+                race_second_add: v["race_second_add"].as_bool().unwrap(),
+            }),
+            _ => Component::Wait(WaitScenario {
+                notifiers: us(&v["notifiers"]),
+                publishes_per_notifier: us(&v["publishes_per_notifier"]),
+                register_delay: us(&v["register_delay"]),
+                targets: list(&v["targets"]),
+            }),
+        }
+    }
+}
+
+pub fn plan(check: &str, seed: u64, idx: u64, tier: Tier) -> (Component, SchedSpec) {
+    let mut rng = Prng::new(derive(seed, 0xc0a9_0000 ^ idx.wrapping_mul(0x9E37)));
+    let big = tier == Tier::Thorough;
+    let comp = match check {
+        "C15" => {
+            if rng.chance(3, 5) {
+                let n = rng.range(2, if big { 8 } else { 6 }) as usize;
+                let limit = rng.range(1, n as u64) as usize;
+                let rewinders = (0..rng.range(1, 2)).map(|_| (0..rng.range(1, 3)).map(|_| rng.below(n as u64 + 1) as usize).collect()).collect();
+                Component::Cursor(CursorScenario { n, limit, claimers: rng.range(1, 3) as usize, rewinders })
+            } else {
+                let n = rng.range(2, if big { 8 } else { 6 }) as usize;
+                let mut all: Vec<usize> = (0..n).collect();
+                rng.shuffle(&mut all);
+                // some indices may stay unpublished; some are published twice
+                let keep = rng.range(1, n as u64) as usize;
+                all.truncate(keep);
+                if rng.chance(1, 3) && !all.is_empty() {
+                    let dup = all[rng.below(all.len() as u64) as usize];
+                    all.push(dup);
+                }
+                let k = rng.range(1, 3) as usize;
+                let mut publishers: Vec<Vec<usize>> = vec![Vec::new(); k];
+                for (i, x) in all.into_iter().enumerate() {
+                    publishers[i % k].push(x);
+                }
+                Component::Frontier(FrontierScenario { n, publishers, readers: rng.range(1, 2) as usize, reads_per_reader: rng.range(1, 4) as usize })
+            }
+        }
+        "C16" if rng.chance(1, 4) => {
+            let n = rng.range(3, 4) as usize;
+            let tx = rng.range(2, n as u64 - 1) as usize;
+            let old_blocker = rng.below(tx as u64) as usize;
+            let mut new_blocker = rng.below(tx as u64) as usize;
+            if new_blocker == old_blocker {
+                new_blocker = (old_blocker + 1) % tx;
+            }
+            Component::Replace(ReplaceScenario { n, tx, old_blocker, new_blocker, claimers: rng.range(1, 2) as usize, pop_next: rng.chance(1, 2), race_second_add: rng.chance(1, 2) })
+        }
+        "C16" => {
+            let n = rng.range(2, if big { 5 } else { 4 }) as usize;
+            let scripts = (0..n)
+                .map(|t| {
+                    let mut s = Vec::new();
+                    for _ in 0..rng.below(3) {
+                        s.push(match rng.below(3) {
+                            0 if t > 0 => Outcome::Conflict(rng.below(t as u64) as usize),
+                            1 => Outcome::Error,
+                            _ if t > 0 => Outcome::Conflict(t - 1),
+                            _ => Outcome::Error,
+                        });
+                    }
+                    s.push(Outcome::Success);
+                    s
+                })
+                .collect();
+            Component::Dependency(DepScenario { n, workers: rng.range(1, 3) as usize, scripts })
+        }
+        _ => {
+            let notifiers = rng.range(1, 2) as usize;
+            let per = rng.range(1, 3) as usize;
+            let total = notifiers * per;
+            let mut targets: Vec<usize> = (0..rng.range(1, 3)).map(|_| rng.range(1, total as u64) as usize).collect();
+            targets.sort_unstable();
+            targets.push(total);
+            Component::Wait(WaitScenario { notifiers, publishes_per_notifier: per, register_delay: rng.below(4) as usize, targets })
+        }
+    };
+    // lost wake-ups and orphans are only decidable when nothing else could wake a parked task
+    let mode = if check == "C15" || rng.chance(1, 4) { SchedMode::Any } else { SchedMode::Strict };
+    let mut sched = checks::sched_for(seed, idx, mode);
+    sched.n1 = checks::N1;
+    sched.n2 = checks::N2;
+    (comp, sched)
+}
+
+pub struct ComponentOutput {
+    pub findings: Vec<Finding>,
+    pub harness: Vec<String>,
+    pub stats: CaseStats,
+    pub trace: Option<Trace>,
+    pub summary: String,
+}
+
+fn property_of(c: &Component) -> &'static str {
+    match c {
+        Component::Cursor(_) | Component::Frontier(_) => "C15",
+        Component::Dependency(_) | Component::Replace(_) => "C16",
+        Component::Wait(_) => "C17",
+    }
+}
+
+pub fn run_component(comp: &Component, sched: &SchedSpec, replay: Option<Trace>, record_trace: bool) -> ComponentOutput {
+    let property = property_of(comp);
+    let c = comp.clone();
+    let body: run::CustomBody = Arc::new(move || {
+        let report: DriverReport = match &c {
+            Component::Cursor(s) => sched::cursor_claim_rewind(s),
+            Component::Frontier(s) => sched::frontier(s),
+            Component::Dependency(s) => sched::tx_dependency(s),
+            Component::Replace(s) => sched::dependency_replace(s),
+            Component::Wait(s) => sched::wait_slot(s),
+        };
+        Box::new(report) as Box<dyn std::any::Any + Send>
+    });
+    let r = run::run_custom(body, sched, replay, record_trace);
+    let mut findings = Vec::new();
+    let mut harness = Vec::new();
+    let mut stats = CaseStats {
+        decisions: r.sched.decisions,
+        steps: r.steps,
+        context_switches: r.sched.context_switches,
+        preemptions: r.sched.preemptions,
+        fair_phase_entered: r.sched.fair_phase_entered,
+        fair_decisions: r.sched.fair_decisions,
+        spurious_wakes: r.sched.spurious_wakes,
+        starve_applied: r.sched.starve_applied,
+        pauses_applied: r.sched.pauses_applied,
+        rt_faults: r.fault_counts,
+        trace_hash: r.trace_hash,
+        ..CaseStats::default()
+    };
+    let mut summary = String::new();
+    match r.verdict {
+        Verdict::CustomCompleted => {
+            stats.completed = true;
+            if let Some(report) = r.custom.and_then(|b| b.downcast::<DriverReport>().ok()) {
+                for (class, detail) in &report.violations {
+                    findings.push(Finding { property, class: class.to_string(), detail: detail.clone() });
+                }
+                stats.behaviour = report.behaviour;
+                stats.nontrivial = report.nontrivial;
+                stats.workload = report.counters.clone();
+                summary = format!("completed, {} violations", report.violations.len());
+            } else {
+                harness.push("component report missing".into());
+            }
+        }
+        Verdict::Deadlock(msg) => {
+            stats.nontrivial = true;
+            stats.behaviour = 0xdead;
+            let class = match comp {
+                Component::Wait(_) => "wait.lost_wakeup",
+                Component::Dependency(_) | Component::Replace(_) => "dependency.orphan_deadlock",
+                _ => "cursor.deadlock",
+            };
+            findings.push(Finding {
+                property,
+                class: class.into(),
+                detail: format!("no runnable task while some are unfinished (nothing but a timeout could wake them): {msg}"),
+            });
+            summary = "deadlock".into();
+        }
+        Verdict::StepBound => {
+            stats.nontrivial = true;
+            stats.behaviour = 0x57e9;
+            let class = match comp {
+                Component::Wait(_) => "wait.no_progress",
+                Component::Dependency(_) | Component::Replace(_) => "dependency.orphan_livelock",
+                _ => "cursor.no_progress",
+            };
+            findings.push(Finding { property, class: class.into(), detail: "the scenario did not finish inside the fair phase".into() });
+            summary = "step bound".into();
+        }
+        Verdict::HarnessError(m) => harness.push(m),
+        Verdict::Completed(_) => harness.push("pipeline result in a component case".into()),
+    }
+    ComponentOutput { findings, harness, stats, trace: record_trace.then_some(r.sched.trace), summary }
+}
+
+fn case_record(check: &str, tier: Tier, seed: u64, idx: u64) -> CaseRecord {
+    let (comp, sched) = plan(check, seed, idx, tier);
+    let out = run_component(&comp, &sched, None, false);
+    let sample = (idx < 3).then(|| json!({"component": comp.to_json(), "strategy": sched.strategy, "strict": sched.strict, "decisions": out.stats.decisions, "result": out.summary}));
+    CaseRecord { idx, findings: out.findings, harness_errors: out.harness, stats: out.stats, sample, group: comp.group() }
+}
+
+fn minimise(check: &str, seed: u64, idx: u64, comp: &Component, sched: &SchedSpec, finding: &Finding, deadline: Instant) -> ReplayFile {
+    let class = finding.class.clone();
+    let fails = |t: Option<Trace>, rec: bool| {
+        let out = run_component(comp, sched, t, rec);
+        out.findings.into_iter().find(|f| f.class == class).map(|f| (f, out.trace))
+    };
+    let mut detail = finding.detail.clone();
+    let mut trace = Trace::default();
+    if let Some((f, Some(t))) = fails(None, true) {
+        detail = f.detail;
+        trace = t;
+    }
+    if !trace.tasks.is_empty() && fails(Some(trace.clone()), false).is_some() {
+        let (mut lo, mut hi) = (0usize, trace.tasks.len());
+        while lo < hi && Instant::now() < deadline {
+            let mid = (lo + hi) / 2;
+            let cand = Trace { tasks: trace.tasks[..mid].to_vec(), randoms: trace.randoms.clone() };
+            if fails(Some(cand), false).is_some() {
+                hi = mid;
+            } else {
+                lo = mid + 1;
+            }
+        }
+        let cand = Trace { tasks: trace.tasks[..hi].to_vec(), randoms: trace.randoms.clone() };
+        if let Some((f, _)) = fails(Some(cand.clone()), false) {
+            trace = cand;
+            detail = f.detail;
+        }
+        let mut i = trace.tasks.len();
+        while i > 1 && Instant::now() < deadline {
+            i -= 1;
+            if trace.tasks[i] != trace.tasks[i - 1] {
+                let mut cand = trace.clone();
+                cand.tasks[i] = cand.tasks[i - 1];
+                if let Some((f, _)) = fails(Some(cand.clone()), false) {
+                    trace = cand;
+                    detail = f.detail;
+                }
+            }
+        }
+    }
+    ReplayFile {
+        check: check.to_string(),
+        property: finding.property.to_string(),
+        class,
+        detail,
+        seed,
+        case_index: idx,
+        scenario: Scenario::empty(),
+        sched: sched.clone(),
+        trace,
+        extra: json!({"component": comp.to_json()}),
+    }
+}
+
+pub fn replay(file: &ReplayFile, path: &Path) -> i32 {
+    let comp = Component::from_json(&file.extra["component"]);
+    let out = run_component(&comp, &file.sched, Some(file.trace.clone()), false);
+    for h in &out.harness {
+        println!("HARNESS-ERROR replay: {h}");
+    }
+    println!("replay {}: {}", path.display(), out.summary);
+    match out.findings.iter().find(|f| f.class == file.class) {
+        Some(f) => {
+            println!("VIOLATION property={} replay={} class={}", f.property, path.display(), f.class);
+            println!("  detail={}", f.detail);
+            1
+        }
+        None => {
+            println!("replay did not reproduce the violation (class={})", file.class);
+            if out.harness.is_empty() { 0 } else { 2 }
+        }
+    }
+}
+
+/// Component part of a check: returns (aggregate, wall seconds, violations printed, known hits, exit code).
+pub fn run_component_batch(check: &str, tier: Tier, seed: u64, runs: u64) -> (batch::Aggregate, f64, u64, u64, i32) {
+    let case = |idx: u64| case_record(check, tier, seed, idx);
+    let (agg, wall) = batch::run_batch(runs, checks::jobs(), 4, None, &case);
+    let known = known::load();
+    let mut exit = 0;
+    let mut violations = 0;
+    let mut known_hits = 0;
+    for (idx, e) in &agg.harness_errors {
+        println!("HARNESS-ERROR check={check} case={idx}: {e}");
+        exit = 2;
+    }
+    let mut seen: Vec<String> = Vec::new();
+    for (idx, f) in &agg.findings {
+        if seen.contains(&f.class) {
+            continue;
+        }
+        seen.push(f.class.clone());
+        let (comp, sched) = plan(check, seed, *idx, tier);
+        let file = minimise(check, seed, *idx, &comp, &sched, f, Instant::now() + Duration::from_secs(30));
+        let path = file.write();
+        let exe = std::env::current_exe().unwrap();
+        let reproduced = std::process::Command::new(exe)
+            .arg("replay")
+            .arg(&path)
+            .output()
+            .map(|o| o.status.code() == Some(1) && String::from_utf8_lossy(&o.stdout).contains(&format!("class={}", file.class)))
+            .unwrap_or(false);
+        if !reproduced {
+            println!("HARNESS-ERROR check={check} case={idx}: finding {} did not reproduce from {}", f.class, path.display());
+            exit = 2;
+            continue;
+        }
+        if let Some(k) = known.iter().find(|k| k.matches(&file)) &&
+            k.status == "known"
+        {
+            println!("KNOWN-FINDING: property={} {} (class={}, replay={})", k.property, k.what, file.class, path.display());
+            known_hits += 1;
+            continue;
+        }
+        violations += 1;
+        println!("VIOLATION property={} replay={}", file.property, path.display());
+        println!("  class={} case={} detail={}", file.class, idx, file.detail.chars().take(600).collect::<String>());
+        if exit == 0 {
+            exit = 1;
+        }
+    }
+    (agg, wall, violations, known_hits, exit)
+}
+
+pub fn run_component_check(check: &str, tier: Tier, seed: u64) -> i32 {
+    let runs = std::env::var("VERIF_RUNS").ok().and_then(|s| s.parse().ok()).unwrap_or(if tier == Tier::Quick { 300_000u64 } else { 20_000_000 });
+    let (mut agg, mut wall, mut violations, mut known_hits, mut exit) = run_component_batch(check, tier, seed, runs);
+    // C15(c), C16(2), C17(2): the same invariants on the real pipeline (trace monitor / strict runs)
+    let pipeline_runs = std::env::var("VERIF_RUNS").ok().and_then(|s| s.parse().ok()).unwrap_or(if tier == Tier::Quick { 60_000u64 } else { 3_000_000 });
+    let (agg2, wall2, v2, k2, e2) = checks::run_pipeline_part(check, tier, seed, pipeline_runs);
+    for (k, v) in agg2.counters.iter() {
+        *agg.counters.entry(k).or_insert(0) += v;
+    }
+    for (k, v) in agg2.groups.iter() {
+        *agg.groups.entry(k).or_insert(0) += v;
+    }
+    agg.evaluations += agg2.evaluations;
+    agg.completed += agg2.completed;
+    agg.decisions += agg2.decisions;
+    agg.steps += agg2.steps;
+    agg.context_switches += agg2.context_switches;
+    agg.preemptions += agg2.preemptions;
+    agg.nontrivial += agg2.nontrivial;
+    agg.fair_phase_entered += agg2.fair_phase_entered;
+    agg.max_fair_decisions = agg.max_fair_decisions.max(agg2.max_fair_decisions);
+    agg.behaviours_nontrivial.extend(agg2.behaviours_nontrivial.iter());
+    agg.behaviours_all.extend(agg2.behaviours_all.iter());
+    agg.trace_hashes.extend(agg2.trace_hashes.iter());
+    agg.samples.extend(agg2.samples.into_iter().take(1));
+    wall += wall2;
+    violations += v2;
+    known_hits += k2;
+    exit = exit.max(e2);
+
+    let rule = match check {
+        "C15" => "cases = (a) production SchedulerContext with 1-3 claimer tasks and 1-2 rewinder tasks on 2-8 indices, (b) ExecutionFrontier with 1-3 publishers (arbitrary order, gaps, duplicates) and 1-2 readers, (c) real pipeline runs with the finality/rewind trace monitor; non-trivial = an effective rewind below the cursor / a frontier value that moved / a pipeline run with re-execution; distinct = distinct event log digest",
+        "C16" => "cases = production TxDependency with 2-5 transactions, 1-3 worker tasks and a commit task driven with the call protocol of scheduler.rs from seeded per-transaction scripts (conflict on predecessor / error parked behind the commit boundary / success), plus strict-mode pipeline runs with conflict and fault profiles; non-trivial = some transaction executed more than once; distinct = distinct (claims, re-onboardings) vector",
+        _ => "cases = production WaitSlot with one waiter (production loop shape, registering at a seeded point) and 1-2 notifiers doing publish-then-notify, strict mode (park never times out) and spurious-wake mode, plus strict-mode pipeline runs; non-trivial = the waiter really parked; distinct = distinct (wake-ups, parks) digest",
+    };
+    let meta = EvidenceMeta {
+        property: check,
+        tier: tier.name(),
+        seed,
+        level: "exploration",
+        rule,
+        assumptions: vec![
+            "the simulated memory model is sequential consistency; weak-memory reorderings permitted by the declared orderings are sampled separately by the Miri part of this check (see coverage.extra)".into(),
+            "component drivers perform only call sequences the real scheduler can perform (reviewed against scheduler.rs)".into(),
+            "seeded sampling of schedules is evidence, not proof".into(),
+        ],
+        real_components: vec!["SchedulerContext / RewindableCursor / PublishedCursor / ExecutionFrontier / TxDependency / WaitSlot (production code, called directly)", "the full pipeline for the trace-monitor part"],
+        replaced_components: checks::REPLACED.to_vec(),
+        stubbed_components: vec!["the scheduler's call protocol around TxDependency (driver mirrors scheduler.rs)", "backing database and precompiles in the pipeline part"],
+        extra: json!({"jobs": checks::jobs(), "component_runs": runs, "pipeline_runs": pipeline_runs, "miri": crate::miri::last_report(check)}),
+    };
+    batch::write_evidence(&meta, &agg, wall, violations, known_hits);
+    println!(
+        "check {check} {}: {} runs in {:.1}s, {} decisions, {} non-trivial, {} distinct behaviours, violations={} known={} exit={}",
+        tier.name(),
+        agg.evaluations,
+        wall,
+        agg.decisions,
+        agg.nontrivial,
+        agg.behaviours_nontrivial.len(),
+        violations,
+        known_hits,
+        exit
+    );
+    exit
 }
